@@ -5,7 +5,7 @@ CONSTANTS
   Cap = 1000
   Retention = 1
   MinDelay = 0
-  Deep = FALSE
+  Deep = TRUE
 INIT Init
 NEXT Next
 CHECK_DEADLOCK FALSE
